@@ -19,11 +19,13 @@ let api (o : 'a Bytes.outcome) : 'a option =
 
 let dbg = ref false
 
-let array_view (t : TextTok.ttok list) (r : Dom.areader) : string =
+let str_of dec t vi = match api (Dom.read_str dec t vi) with Some s -> hex_of_bytes s | None -> "E"
+
+let array_view dec (t : TextTok.ttok list) (r : Dom.areader) : string =
   let v = ok (Dom.array_view t r) in
   let n = int_of_nat v.Dom.av_len in
-  Printf.sprintf "A{n=%d,v=[%s],tl=%d,e=%d,vh=%d/%d}" n
-    (sj (Stdlib.List.map si v.Dom.av_values)) (int_of_nat v.Dom.av_tokens)
+  Printf.sprintf "A{n=%d,v=[%s],vs=[%s],tl=%d,e=%d,vh=%d/%d}" n
+    (sj (Stdlib.List.map si v.Dom.av_values)) (sj (Stdlib.List.map (str_of dec t) v.Dom.av_values)) (int_of_nat v.Dom.av_tokens)
     (if n = 0 then 1 else 0) n n
 
 let object_view (dec : BinNums.coq_N list -> BinNums.coq_N list) (t : TextTok.ttok list) (r : Dom.oreader) : string =
@@ -31,20 +33,21 @@ let object_view (dec : BinNums.coq_N list -> BinNums.coq_N list) (t : TextTok.tt
   let fs = Stdlib.List.map (fun (f : Dom.field) ->
       Printf.sprintf "%s/%s/%s" (string_of_tok f.Dom.f_key) (op_str f.Dom.f_op) (si f.Dom.f_val)) v.Dom.ov_fields in
   let ks = Stdlib.List.map (fun (f : Dom.field) -> hex_of_bytes (dec (Dom.tok_bytes f.Dom.f_key))) v.Dom.ov_fields in
+  let vs = Stdlib.List.map (fun (f : Dom.field) -> str_of dec t f.Dom.f_val) v.Dom.ov_fields in
   let remv = sj (Stdlib.List.map si v.Dom.ov_rem) in
   let ng = Stdlib.List.length v.Dom.ov_groups in
   let gs = Stdlib.List.map (fun (g : Dom.group) ->
       let n = Stdlib.List.length g.Dom.g_vals in
       Printf.sprintf "%s%s%d(%s)" (string_of_tok g.Dom.g_key) (if n = 1 then "1" else "m") n
-        (sj (Stdlib.List.map (fun (op, vi) -> op_str op ^ "/" ^ si vi) g.Dom.g_vals))) v.Dom.ov_groups in
+        (Stdlib.String.concat "+" (Stdlib.List.map (fun (op, vi) -> op_str op ^ "/" ^ si vi) g.Dom.g_vals))) v.Dom.ov_groups in
   (* key_indices.len() after each next: one entry leaves the map per group *)
   let gh = int_of_nat v.Dom.ov_ghint in
   let ghs = Stdlib.List.mapi (fun k _ -> string_of_int (gh - k - 1)) v.Dom.ov_groups in
   ignore ng;
-  Printf.sprintf "O{fl=%d,h=%d,f=[%s],rem=[%s]/%d/%d,g=[%s],gh=%d:%s,grem=[%s],tl=%d,ks=[%s]}"
+  Printf.sprintf "O{fl=%d,h=%d,f=[%s],rem=[%s]/%d/%d,g=[%s],gh=%d:%s,grem=[%s],tl=%d,ks=[%s],vs=[%s]}"
     (int_of_nat v.Dom.ov_fields_len) (int_of_nat v.Dom.ov_hint) (sj fs) remv
     (int_of_nat v.Dom.ov_rem_len) (int_of_nat v.Dom.ov_rem_tokens) (sj gs) gh
-    (Stdlib.String.concat "," ghs) remv (int_of_nat v.Dom.ov_tokens) (sj ks)
+    (Stdlib.String.concat "," ghs) remv (int_of_nat v.Dom.ov_tokens) (sj ks) (sj vs)
 
 let node_view (utf8 : bool) (t : TextTok.ttok list) (idx : string) : string =
   let dec = Json.decode_of utf8 in
@@ -56,7 +59,7 @@ let node_view (utf8 : bool) (t : TextTok.ttok list) (idx : string) : string =
     let sc = match api (Dom.read_scalar t v) with Some s -> hex_of_bytes s | None -> "E" in
     let st = match api (Dom.read_str dec t v) with Some s -> hex_of_bytes s | None -> "E" in
     let ob = match api (Dom.read_object t v) with Some r -> object_view dec t r | None -> "E" in
-    let ar = match api (Dom.read_array t v) with Some r -> array_view t r | None -> "E" in
+    let ar = match api (Dom.read_array t v) with Some r -> array_view dec t r | None -> "E" in
     Printf.sprintf "tok=%s tl=%d sc=%s str=%s obj=%s arr=%s" (string_of_tok tok) (int_of_nat tl) sc st ob ar
   end
 
